@@ -15,6 +15,9 @@ Model-free oracles on the implementation (see design/C11.md):
   repo_key  the same file snapshotted into two encrypted repositories (independent keys): boundaries differ
   handover  streams handed to the adapter as ONE block larger than twice every size constant (>= 1 MiB, read with ast) of
             adapters.py / repository.py, and as many blocks: identical outside the tail zone; the pair / edit oracles on them
+  session   one encrypted repository: snapshot, key-management / listing commands on the same long-lived Repository object,
+            snapshot again by that object / a new session / the holder of a shared key (same cuts) / of an own key (other cuts);
+            files that vanish between collection and reading; every file of every snapshot starts at a multiple of 4
   aligned   every chunk that starts outside the tail zone ends at a multiple of 4 (C11_boundary_aligned on the implementation)
   history   several (stream, key) jobs on one or several adapter objects / RepositoryProps - sequentially in permuted order,
             interleaved, or started at different times (a native chunker is constructed while others are mid-stream) under a
@@ -523,6 +526,161 @@ def snapshot_keys(seed, workdir):
     return problems, st, desc
 
 
+def _compare_common_file(ra, rb, F, mn, mx, what_a, what_b):
+    """Two recorded snapshot streams that both end with the file F: F must start aligned in both, its chunk sequences must
+    meet within the bound and coincide afterwards.  -> (problems, shared chunk count)"""
+    problems, starts, bsets = [], [], []
+    for rec, what in ((ra, what_a), (rb, what_b)):
+        X = b''.join(rec.pieces)
+        f = [f for f in rec.files if f.path.endswith('z-last')]
+        if len(f) != 1 or X[f[0].stream_start:] != F:
+            return None, 0
+        starts.append(f[0].stream_start)
+        off = [g for g in rec.files if g.stream_start % 4]
+        if off:
+            problems.append((f'{what}: file {off[0].path.rsplit("/", 1)[-1]} starts at stream offset {off[0].stream_start} = {off[0].stream_start % 4} (mod 4) '
+                             f'(file extents {[(g.stream_start, g.stream_end) for g in rec.files]}): equal files no longer see equal cut candidates', 'padding'))
+        bsets.append({b - f[0].stream_start for b in ends_of(rec.chunks) if b >= f[0].stream_start})
+    common = sorted(q for q in bsets[0] & bsets[1] if len(F) - q >= 2 * mx)
+    shared = len(set(ra.chunks) & set(rb.chunks))
+    if not common or common[0] > K_RESYNC * mx:
+        problems.append((f'{what_a} / {what_b}: the chunks of the common file ({len(F)} high-entropy bytes, min {mn}, max {mx}) do not re-synchronise within '
+                         f'{K_RESYNC}*max bytes; it starts at stream offsets {starts} (mod 4: {[x % 4 for x in starts]}); {shared} chunks shared', 'session'))
+    else:
+        q = common[0]
+        a1, a2 = sorted(b for b in bsets[0] if b > q), sorted(b for b in bsets[1] if b > q)
+        pos, j = q, 0
+        while len(F) - pos >= 2 * mx:
+            if j >= len(a1) or j >= len(a2) or a1[j] != a2[j]:
+                problems.append((f'{what_a} / {what_b}: common boundary at offset {q} of the common file but the chunks after offset {pos} differ', 'suffix'))
+                break
+            pos = a1[j]
+            j += 1
+    return problems, shared
+
+
+def repo_session(seed, workdir, slot=0):
+    """A command sequence on one encrypted repository: snapshot [a, F]; key-management / listing commands on the SAME long-lived
+    Repository object; snapshot [a', F] again with that object, with a new session of the same user, with the holder of a key added
+    with shared=True (all must cut F identically: same repository chunker key) and with the holder of a key added with shared=False
+    (own chunker key: boundaries must differ).  In some snapshots a file between a and F vanishes after the files were collected
+    (if the snapshot fails for that reason it is repeated without the vanishing file).  -> (problems, stats, description)"""
+    from pathlib import Path
+    import replicat.repository as R
+    from replicat.repository import Repository
+    from harness.memstore import MemBackend
+    from harness.c01 import Recorder, instrument
+    r = random.Random(seed)
+    mx = r.choice([64, 96, 128])
+    mn = r.choice([1, 4, mx // 16])
+    F = r.randbytes(K_RESYNC * mx + 2 * mx + r.randint(1, 300))
+    cmds = r.sample(['add_shared', 'add_own', 'list'], r.randint(1, 3))
+    settings = {'chunking': {'min_length': mn, 'max_length': mx}, 'hashing': {'name': 'blake2b', 'length': 32},
+                'encryption': {'cipher': {'name': 'chacha20_poly1305'}, 'kdf': {'name': 'scrypt', 'n': 4, 'r': 1, 'p': 1}}}
+    ksettings = {'encryption': {'kdf': {'name': 'scrypt', 'n': 4, 'r': 1, 'p': 1}}}      # cheap KDF for the added keys too
+    desc = {'kind': 'repo_session', 'seed': seed, 'slot': slot, 'min': mn, 'max': mx, 'commands': cmds, 'common_file_length': len(F), 'snapshots': []}
+    backend = MemBackend(random.Random(seed + 1), 0.0)
+    recs = []                       # (label, same_key_expected, Recorder)
+    counter = [0]
+    vanish_at = r.randint(1, 3)
+
+    async def snap(repo, label, same):
+        counter[0] += 1
+        vanish = counter[0] == vanish_at                     # one snapshot of the session loses a file (a failing snapshot takes seconds)
+        res = slot % 4 if vanish else r.randrange(4)         # across the sessions of a run the file before it has every length mod 4
+        la = 4 * r.randint(0, 2 * mx) + res
+        for attempt in (0, 1):
+            d = Path(workdir) / f'{seed}-{counter[0]}-{attempt}'
+            d.mkdir(parents=True)
+            (d / 'a-first').write_bytes(r.randbytes(la))
+            (d / 'z-last').write_bytes(F)
+            paths = [d / 'a-first', d / 'z-last']
+            victim = None
+            if vanish and attempt == 0:
+                victim = d / 'm-vanishing'
+                victim.write_bytes(r.randbytes(la + r.randint(1, 40)))
+                paths.insert(1, victim)
+            rec = Recorder()
+            with instrument(rec):
+                Base = R._SnapshotFile
+
+                class Deleting(Base):                       # a concurrent deleter: the victim goes when the first file starts streaming
+                    def __init__(self, *a, **k):
+                        super().__init__(*a, **k)
+                        if victim is not None:
+                            victim.unlink(missing_ok=True)
+                R._SnapshotFile = Deleting
+                try:
+                    await repo.snapshot(paths=paths, note=label)
+                except Exception as ex:
+                    if victim is None:
+                        raise
+                    desc['snapshots'].append({'by': label, 'first_file_length': la, 'vanishing_file': True, 'failed': type(ex).__name__})
+                    continue
+                finally:
+                    R._SnapshotFile = Base
+            desc['snapshots'].append({'by': label, 'first_file_length': la, 'vanishing_file': victim is not None})
+            recs.append((label + (' (a file vanished during the snapshot)' if victim is not None else ''), same, rec))
+            return
+
+    async def go():
+        repo0 = Repository(backend, concurrent=2, quiet=True, cache_directory=None)
+        init = await repo0.init(password=b'pw', settings=settings)
+        sess = Repository(backend, concurrent=2, quiet=True, cache_directory=None)
+        await sess.unlock(password=b'pw', key=init.key)
+        await snap(sess, 'first snapshot of the session', True)
+        keys = {}
+        for c in cmds:
+            if c == 'add_shared':
+                keys['shared'] = (await sess.add_key(password=b'pw-s', shared=True, settings=ksettings)).new_key
+            elif c == 'add_own':
+                keys['own'] = (await sess.add_key(password=b'pw-o', shared=False, settings=ksettings)).new_key
+            else:
+                await sess.list_snapshots()
+        await snap(sess, f'same session after {"+".join(cmds)}', True)
+        again = Repository(backend, concurrent=2, quiet=True, cache_directory=None)
+        await again.unlock(password=b'pw', key=init.key)
+        await snap(again, 'new session of the same user', True)
+        if 'shared' in keys:
+            rp = Repository(backend, concurrent=2, quiet=True, cache_directory=None)
+            await rp.unlock(password=b'pw-s', key=keys['shared'])
+            await snap(rp, 'holder of the key added with shared=True', True)
+        if 'own' in keys:
+            rp = Repository(backend, concurrent=2, quiet=True, cache_directory=None)
+            await rp.unlock(password=b'pw-o', key=keys['own'])
+            await snap(rp, 'holder of the key added with shared=False', False)
+
+    sink = io.StringIO()
+    with contextlib.redirect_stdout(sink), contextlib.redirect_stderr(sink):
+        asyncio.run(go())
+    problems, st = [], {'snapshots': len(recs), 'shared_chunks': 0}
+    ref_label, _, ref = recs[0]
+    for label, same, rec in recs[1:]:
+        if same:
+            if rec.key != ref.key:
+                problems.append((f'{label} (commands: {"+".join(cmds)}) chunks with chunker params {(rec.key or b"").hex()} although the repository key of the first snapshot '
+                                 f'carries {(ref.key or b"").hex()}: the same user / a shared-key holder no longer cuts equal data equally', 'session_key'))
+            pr, shared = _compare_common_file(ref, rec, F, mn, mx, ref_label, label)
+            if pr is None:
+                st['inapplicable'] = True
+                continue
+            problems += pr
+            st['shared_chunks'] += shared
+        else:
+            fa = [f for f in ref.files if f.path.endswith('z-last')][0].stream_start
+            fb = [f for f in rec.files if f.path.endswith('z-last')][0].stream_start
+            ea = [b - fa for b in ends_of(ref.chunks) if b >= fa and len(F) - (b - fa) >= 2 * mx]
+            eb = [b - fb for b in ends_of(rec.chunks) if b >= fb and len(F) - (b - fb) >= 2 * mx]
+            if ea == eb and len(ea) >= 40 and mn * 16 <= mx and ref.key != rec.key:
+                problems.append((f'{label} cuts the common file exactly like the first user although its chunker key differs ({len(ea)} boundaries)', 'repo_key'))
+    # unaligned file starts in any snapshot, also the reference
+    for label, _, rec in recs[:1]:
+        off = [g for g in rec.files if g.stream_start % 4]
+        if off:
+            problems.append((f'{label}: file {off[0].path.rsplit("/", 1)[-1]} starts at stream offset {off[0].stream_start} = {off[0].stream_start % 4} (mod 4)', 'padding'))
+    return problems, st, desc
+
+
 # --------------------------------------------------------------------------- model side helpers
 def keyf_model_file(samples):
     lines = ['From Coq Require Import List NArith.', 'From Replicat Require Import Model.Clmul Model.Resync.',
@@ -596,7 +754,7 @@ RULE = ('cases drawn from one PRNG: (a) model-sized (<= ~620 bytes, max <= 64; d
         'pairs prefix1+S, prefix2+S with prefix lengths multiples of 4, unaligned negative controls, insert / delete (multiples of 4 bytes at any '
         'offset) / alter edits, key pairs - each stream chunked by the real adapter over the recompiled C++ under a random segmentation AND by the '
         'Gallina model (vm_compute); (b) oracle-only high-entropy streams of (256 + 2..6)*max bytes, max 64..256 (thorough: ..1024, some max not '
-        'multiples of 4), min <= max/16, same kinds, key pairs independent / k0 only / k1 with differing top bit; (c) streams of > 2x the largest size constant of the source (else 40 MiB) handed over as ONE block and as many blocks, max 64..128 KiB, pairs and edits near the start; (d) sessions: 2-5 (stream, key) jobs on 1-3 adapter objects, sequential / interleaved / staggered starts with a random advance schedule, adapter / RepositoryProps.chunkify; (e) real snapshots [a,F], [b,F] in one repository, and one file in two encrypted repositories; '
+        'multiples of 4), min <= max/16, same kinds, key pairs independent / k0 only / k1 with differing top bit; (c) streams of > 2x the largest size constant of the source (else 40 MiB) handed over as ONE block and as many blocks, max 64..128 KiB, pairs and edits near the start; (d) sessions: 2-5 (stream, key) jobs on 1-3 adapter objects, sequential / interleaved / staggered starts with a random advance schedule, adapter / RepositoryProps.chunkify; (e) repository sessions (snapshot / add_key shared or not / list / snapshot by the same object, a new session, the other key holders; vanishing files), real snapshots [a,F], [b,F] in one repository, and one file in two encrypted repositories; '
         'non-trivial = a common boundary outside the tail zone followed by >= 2 shared chunks (pairs, edits), >= 40 chunks (keys), '
         '>= 1 verified dominant position; distinct = distinct case descriptions')
 
@@ -850,6 +1008,22 @@ def run_snapshots(ctx, rep: Report, n, stats):
         rep.sample({'case': desc, 'result': st}, limit=6)
         for what, kind in problems:
             rep.violations.append({'what': what, 'signature': {'kind': kind}, 'replay': desc})
+    for slot in range(max(4, (2 * n) // 3)):
+        seed = ctx.rng.getrandbits(31)
+        try:
+            problems, st, desc = repo_session(seed, ctx.scratch / 'snap', slot)
+        except Exception as ex:
+            rep.notes.append(f'repository session {seed} not evaluated: {type(ex).__name__}: {ex}')
+            continue
+        rep.case(desc, nontrivial=st['snapshots'] >= 3 and st['shared_chunks'] >= 2)
+        rep.count('repo_session' + (':inapplicable' if st.get('inapplicable') else ''))
+        rep.count('repo_session_snapshots', st['snapshots'])
+        rep.count('repo_session_snapshots_with_a_vanishing_file', sum(1 for x in desc['snapshots'] if x['vanishing_file'] and 'failed' not in x))
+        rep.count('repo_session_snapshots_failed_on_a_vanishing_file', sum(1 for x in desc['snapshots'] if 'failed' in x))
+        stats['snapshot_shared_chunks'] = stats.get('snapshot_shared_chunks', 0) + st['shared_chunks']
+        rep.sample({'case': desc, 'result': st}, limit=8)
+        for what, kind in problems:
+            rep.violations.append({'what': what, 'signature': {'kind': kind}, 'replay': desc})
     for _ in range(max(1, n // 3)):
         seed = ctx.rng.getrandbits(31)
         try:
@@ -957,6 +1131,11 @@ def search(ctx, broken) -> Report:
 def replay(ctx, obj):
     rep = Report(rule=RULE)
     case = obj.get('replay') or {}
+    if case.get('kind') == 'repo_session':
+        problems, st, desc = repo_session(case['seed'], ctx.scratch / 'snap', case.get('slot', 0))
+        for what, kind in problems:
+            print('VIOLATION-REPRODUCED', what)
+        return 1 if problems else 0
     if case.get('kind') in ('snapshot', 'snapshot_keys'):
         fn = snapshot_pair if case['kind'] == 'snapshot' else snapshot_keys
         problems, st, desc = fn(case['seed'], ctx.scratch / 'snap')
